@@ -147,3 +147,118 @@ func driveRTList(s *exec.State, g *gen.G, n int) {
 		scriptRT(s, abs.V{"k": "LIST", "pkts": pk})
 	}
 }
+
+func init() {
+	drivers["frameseq"] = driveFrameSeq
+	drivers["limits"] = driveLimits
+}
+
+// driveFrameSeq: sequences of up to 12 frames (valid encodings of random
+// values, raw frames), one of them possibly faulted, or junk appended (C06).
+func driveFrameSeq(s *exec.State, g *gen.G, n int) {
+	for i := 0; i < n; i++ {
+		k := g.Pick(1, 2, 2, 3, 3, 4, 5, 8, 12)
+		frames := make([][]byte, 0, k+1)
+		for j := 0; j < k; j++ {
+			frames = append(frames, encodeWith(g.Any()))
+		}
+		switch g.R.Intn(4) {
+		case 0: // fault one frame, keeping it a complete frame where possible
+			j := g.R.Intn(k)
+			frames[j] = mutate(g, frames[j])
+		case 1: // junk tail
+			frames = append(frames, randBytes(g, g.Int(1, 7)))
+		case 2: // truncated last frame
+			f := frames[k-1]
+			if len(f) > 1 {
+				frames[k-1] = f[:g.Int(1, len(f)-1)]
+			}
+		}
+		scriptFrames(s, frames)
+	}
+}
+
+// driveLimits: well-formed values with one field pushed to, just below or
+// just above its wire limit (C08).
+func driveLimits(s *exec.State, g *gen.G, n int) {
+	for i := 0; i < n; i++ {
+		var v abs.V
+		sel := g.R.Intn(11)
+		if sel == 9 && g.R.Intn(8) != 0 {
+			sel = 10
+		}
+		switch sel {
+		case 0:
+			v = g.SR()
+			v["reports"] = g.RBs(g.Pick(30, 31, 32, 33, 40))
+		case 1:
+			v = g.RR()
+			v["reports"] = g.RBs(g.Pick(30, 31, 32, 33, 40))
+		case 2:
+			v = g.SR()
+			rs := g.RBs(g.Pick(1, 2, 3))
+			lost := abs.L{g.Pick(0, 0, 1, 2, 255), g.Pick(0, 255), g.Pick(0, 255), g.Pick(0, 1, 255)}
+			rs[g.R.Intn(len(rs))].(abs.V)["lost"] = lost
+			v["reports"] = rs
+		case 3:
+			v = g.SDES()
+			cs := make(abs.L, g.Pick(30, 31, 32, 33))
+			for j := range cs {
+				cs[j] = g.Chunk()
+			}
+			v["chunks"] = cs
+		case 4:
+			v = abs.V{"k": "SDES", "chunks": abs.L{abs.V{"src": g.U32(), "items": abs.L{g.Item(), abs.V{"t": g.Pick(0, 1, 2), "text": g.Bytes(g.Pick(253, 254, 255, 256, 257, 400))}}}}}
+		case 5:
+			v = g.BYE()
+			v["srcs"] = g.U32s(g.Pick(30, 31, 32, 33))
+		case 6:
+			v = g.BYE()
+			v["reason"] = g.Bytes(g.Pick(253, 254, 255, 256, 257, 400))
+		case 7:
+			v = g.APP()
+			if g.Bool() {
+				v["st"] = g.Pick(30, 31, 32, 33, 255)
+			} else {
+				v["name"] = g.Bytes(g.Pick(0, 3, 4, 5, 8))
+			}
+		case 8:
+			v = g.REMB()
+			if g.Bool() {
+				v["ssrcs"] = g.U32s(g.Pick(254, 255, 256, 257, 300))
+			} else {
+				v["br"] = abs.V{"s": 1, "e": g.Pick(0, 1, 127, 254), "f": g.Pick(0, 1, 0x7FFFFF)}
+			}
+		case 9:
+			v = g.CCFB()
+			ms := make(abs.L, g.Pick(16383, 16384, 16385))
+			for j := range ms {
+				ms[j] = abs.V{"r": true, "ecn": 0, "ato": j % 8192}
+			}
+			v["blocks"] = abs.L{abs.V{"media": g.U32(), "begin": 5, "mbs": ms}}
+		default:
+			// TWCC with one delta moved to the edge of (or outside) its range
+			st := make([]int, g.Pick(1, 2, 3, 5, 9))
+			for j := range st {
+				st[j] = g.Pick(1, 2)
+			}
+			v = g.TWCCFrom(st, 0)
+			ds := v["deltas"].(abs.L)
+			d := ds[g.R.Intn(len(ds))].(abs.V)
+			if abs.I(d["t"]) == 1 {
+				d["ticks"] = g.Pick(-2, -1, 0, 255, 256, 257, 100000)
+			} else {
+				d["ticks"] = g.Pick(-100000, -32769, -32768, 32767, 32768, 100000)
+			}
+			d["rem"] = 0
+		}
+		s.Reset()
+		s.Build(1, v)
+		s.Marshal(1)
+		s.Size(1)
+		if s.Buf[1] != nil {
+			s.Unmarshal(v["k"].(string), 1, 2)
+			s.Datagram(1, 3)
+		}
+	}
+}
